@@ -79,10 +79,15 @@ class Prog:
     def __init__(self, repo, name):
         self.name = name
         self.ops = []  # (kind, outs, args-as-python-exprs)
+        self.cuts = []  # variables multiplied by modulus constants: the quotient digits of the reduction rounds
         for st in load_func(repo, name):
             m = re.match(r"^(\w+), (\w+) = bits\.(Mul64|Add64|Sub64)\((.*)\)$", st)
             if m:
                 self.ops.append((m.group(3), (m.group(1), m.group(2)), [compile(tr(a), "<e>", "eval") for a in split_args(m.group(4))]))
+                if m.group(3) == "Mul64":
+                    a0, a1 = split_args(m.group(4))
+                    if re.fullmatch(r"x\d+", a0) and re.fullmatch(r"0x[0-9a-fA-F]+", a1) and a0 not in self.cuts:
+                        self.cuts.append(a0)
                 continue
             m = re.match(r"^sm2(?:Scalar)?CmovznzU64\(&(\w+), (.*)\)$", st)
             if m:
@@ -132,7 +137,7 @@ def z(x):
     return z3.BitVecVal(x.v, 64) if isinstance(x.v, int) else x.v
 
 
-def run(prog, args, want=None):
+def run(prog, args, want=None, env_out=None):
     """Interpret prog. args: list of 4-limb lists of V. Returns (out limbs, events) where events maps
     (site, event) -> True (concrete) or a z3 Bool (symbolic). If want=(site, event) stop at that site."""
     E = {}
@@ -141,6 +146,8 @@ def run(prog, args, want=None):
             E["arg%d_%d" % (ai + 1, li)] = l
     out = [None] * 4
     events = {}
+    if env_out is not None:
+        env_out["E"] = E
     env = {"E": E, "V": V}
     for kind, outs, exprs in prog.ops:
         vals = [eval(c, env) for c in exprs]
@@ -243,66 +250,200 @@ def all_sites(prog):
     return sites
 
 
-def work(job):
-    repo, name, seed, budget = job
+def gauss(b1, b2):
+    def n2(v):
+        return v[0] * v[0] + v[1] * v[1]
+    while True:
+        if n2(b2) < n2(b1):
+            b1, b2 = b2, b1
+        mu = b1[0] * b2[0] + b1[1] * b2[1]
+        q = (2 * mu + n2(b1)) // (2 * n2(b1))
+        if q == 0:
+            return b1, b2
+        b2 = (b2[0] - q * b1[0], b2[1] - q * b1[1])
+
+
+def special(c0, c1, T):
+    """all m in [0, 2^64) with hi64(m*c0) + lo64(m*c1) == T (mod 2^64): (m * (c0 + 2^64 c1)) mod 2^128 lies in
+    [T*2^64, (T+1)*2^64) - a closest-vector problem in the lattice spanned by (1, C), (0, 2^128)."""
+    C = (c0 + (c1 << 64)) % (1 << 128)
+    if C == 0:
+        return []
+    b1, b2 = gauss((1, C), (0, 1 << 128))
+    cx, cy = 1 << 63, (T << 64) + (1 << 63)
+    det = b1[0] * b2[1] - b1[1] * b2[0]
+    u = (cx * b2[1] - cy * b2[0]) // det
+    v = (b1[0] * cy - b1[1] * cx) // det
+    res = set()
+    for i in range(u - 8, u + 10):
+        for j in range(v - 8, v + 10):
+            x, y = i * b1[0] + j * b2[0], i * b1[1] + j * b2[1]
+            if 0 <= x < (1 << 64) and (T << 64) <= y < ((T + 1) << 64):
+                res.add(x)
+    return sorted(res)
+
+
+TARGETS = [M64, M64 - 1, 0, 1]
+
+
+def digits_phase(job):
+    """Quotient digits and operand limbs with a SATURATED partial sum: hi(m*c_j) + lo(m*c_j+1) in {2^64-1, 2^64-2, 0, 1}
+    for adjacent modulus limbs (m = quotient digit of a reduction round) and for adjacent limbs of a concrete
+    partner operand (m = a limb of the other operand). The digit is then realised through an input limb on
+    which it depends affinely (two concrete probes give the affine map)."""
+    repo, name, seed = job
     rng = random.Random(seed)
     prog = Prog(repo, name)
     _, arity, mod = FUNCS[name]
-    targets = all_sites(prog)
+    ml = limbs(mod)
+    cands = set()
+    for j in range(3):
+        for T in TARGETS:
+            cands.update(special(ml[j], ml[j + 1], T))
+    cands.update([M64, 0, 1, 1 << 63])
     found = {}
-    # 1. concrete exploration
-    for it in range(30000):
+
+    def concrete(args):
+        envo = {}
+        _, ev = run(prog, [[V(l) for l in a] for a in args], env_out=envo)
+        return ev, envo["E"]
+
+    def keep(args, ev):
+        for k in ev:
+            if k not in found:
+                found[k] = [list(a) for a in args]
+
+    # (1) realise each special digit in each reduction round
+    for cut in prog.cuts:
+        for M in sorted(cands):
+            for attempt in range(6):
+                args = [rand_operand(rng, mod) for _ in range(arity)]
+                if arity == 2 and attempt % 2 == 0:
+                    args[1] = [rng.choice([1, 3, M64, rng.getrandbits(64) | 1])] + [rng.choice(ALPHA) for _ in range(3)]
+                    if sum(l << (64 * i) for i, l in enumerate(args[1])) >= mod:
+                        continue
+                done = False
+                for ai in range(arity):
+                    for li in (3, 2, 1, 0):
+                        probe = []
+                        for val in (0, 1, 2):
+                            a2 = [list(a) for a in args]
+                            a2[ai][li] = val
+                            _, E = concrete(a2)
+                            x = E.get(cut)
+                            probe.append(None if x is None else x.v)
+                        if None in probe:
+                            continue
+                        alpha, beta = (probe[1] - probe[0]) & M64, probe[0]
+                        if (probe[2] - probe[1]) & M64 != alpha or alpha % 2 == 0:
+                            continue
+                        val = ((M - beta) * pow(alpha, -1, 1 << 64)) & M64
+                        a2 = [list(a) for a in args]
+                        a2[ai][li] = val
+                        if sum(l << (64 * i) for i, l in enumerate(a2[ai])) >= mod:
+                            continue
+                        ev, E = concrete(a2)
+                        if E[cut].v == M:
+                            keep(a2, ev)
+                            done = True
+                            break
+                    if done:
+                        break
+    # (2) operand limbs that saturate the partial-product chain against a concrete partner
+    if arity == 2 or name.endswith("Square"):
+        for attempt in range(60):
+            args = [rand_operand(rng, mod) for _ in range(arity)]
+            partner = args[1] if arity == 2 else args[0]
+            for j in range(3):
+                for T in TARGETS:
+                    for m in special(partner[j], partner[j + 1], T)[:2]:
+                        for li in range(4):
+                            a2 = [list(a) for a in args]
+                            a2[0][li] = m
+                            if sum(l << (64 * i) for i, l in enumerate(a2[0])) >= mod:
+                                continue
+                            ev, _ = concrete(a2)
+                            keep(a2, ev)
+                            if arity == 2:
+                                a3 = [a2[1], a2[0]]
+                                ev, _ = concrete(a3)
+                                keep(a3, ev)
+    return name, found
+
+
+def expr_size(e, cap=20000):
+    seen, stack, n = set(), [e], 0
+    while stack and n < cap:
+        x = stack.pop()
+        if x.get_id() in seen:
+            continue
+        seen.add(x.get_id())
+        n += 1
+        stack.extend(x.children())
+    return n
+
+
+def explore(job):
+    repo, name, seed = job
+    rng = random.Random(seed)
+    prog = Prog(repo, name)
+    _, arity, mod = FUNCS[name]
+    found = {}
+    small = [[1, 0, 0, 0], [0, 1, 0, 0], [0, 0, 1, 0], [0, 0, 0, 1], [2, 0, 0, 0], [M64, 0, 0, 0], [0, 0, 0, 0]]
+    for it in range(40000):
         args = [rand_operand(rng, mod) for _ in range(arity)]
         if arity == 2 and rng.random() < 0.1:
             args[1] = list(args[0])
+        if arity == 2 and rng.random() < 0.15:
+            args[rng.randrange(2)] = list(rng.choice(small))
         _, ev = run(prog, [[V(l) for l in a] for a in args])
         for k in ev:
             if k not in found:
                 found[k] = args
-    concrete = len(found)
-    # 2. solve the rest
+    return name, {k: v for k, v in found.items()}
+
+
+def solve_chunk(job):
+    repo, name, seed, targets, budget = job
+    rng = random.Random(seed)
+    prog = Prog(repo, name)
+    _, arity, mod = FUNCS[name]
+    found, votes = {}, {}
     t0 = time.time()
-    missing = [t for t in targets if t not in found]
-    rng.shuffle(missing)
-    unsat_votes = {}
-    for t in missing:
+    partners = [None, [1, 0, 0, 0], [0, 1, 0, 0], [1, 1, 0, 0], None, [0, 0, 1, 0], [M64, M64, 0, 0], None]
+    for t in targets:
+        t = tuple(t)
         if time.time() - t0 > budget:
             break
         if t in found:
             continue
-        for attempt in range(6):
+        for attempt in range(8):
             args = [rand_operand(rng, mod) for _ in range(arity)]
-            nsym = 1 if attempt < 4 else 2
-            symset = set()
-            while len(symset) < nsym:
-                symset.add((rng.randrange(arity), rng.randrange(4)))
-            sargs = []
-            svars = {}
-            for ai, a in enumerate(args):
-                row = []
-                for li, l in enumerate(a):
-                    if (ai, li) in symset:
-                        bv = z3.BitVec("a%d_%d" % (ai, li), 64)
-                        svars[(ai, li)] = bv
-                        row.append(V(bv))
-                    else:
-                        row.append(V(l))
-                sargs.append(row)
-            _, ev = run(prog, sargs, want=t)
-            cond = ev.get(t)
-            if cond is None or cond is True:
+            if arity == 2 and partners[attempt] is not None:
+                args[rng.randrange(2)] = list(partners[attempt])
+            best = None
+            for ai in range(arity):
+                for li in range(4):
+                    sargs = [[V(l) for l in a] for a in args]
+                    sargs[ai][li] = V(z3.BitVec("a%d_%d" % (ai, li), 64))
+                    _, ev = run(prog, sargs, want=t)
+                    cond = ev.get(t)
+                    if cond is None or cond is True:
+                        continue
+                    sz = expr_size(cond)
+                    if best is None or sz < best[0]:
+                        best = (sz, ai, li, cond, sargs)
+            if best is None:
                 continue
-            s = z3.Solver()
-            s.set("timeout", 8000)
+            sz, ai, li, cond, sargs = best
+            s = z3.SolverFor("QF_BV")
+            s.set("timeout", 15000)
             s.add(cond)
-            for ai, row in enumerate(sargs):
-                val = z3.Concat(*[z(row[i]) for i in (3, 2, 1, 0)])
-                s.add(z3.ULT(val, z3.BitVecVal(mod, 256)))
+            for row in sargs:
+                s.add(z3.ULT(z3.Concat(*[z(row[i]) for i in (3, 2, 1, 0)]), z3.BitVecVal(mod, 256)))
             r = s.check()
             if r == z3.sat:
-                mdl = s.model()
-                for (ai, li), bv in svars.items():
-                    args[ai][li] = mdl.eval(bv, model_completion=True).as_long()
+                args[ai][li] = s.model().eval(z(sargs[ai][li]), model_completion=True).as_long()
                 _, ev2 = run(prog, [[V(l) for l in a] for a in args])
                 if t in ev2:
                     for k in ev2:
@@ -310,10 +451,8 @@ def work(job):
                             found[k] = [list(a) for a in args]
                     break
             elif r == z3.unsat:
-                unsat_votes[t] = unsat_votes.get(t, 0) + 1
-    vec = [{"fn": name, "site": k[0], "event": k[1], "args": [["%016x" % l for l in a] for a in v]} for k, v in sorted(found.items())]
-    miss = [list(t) + [unsat_votes.get(t, 0)] for t in targets if t not in found]
-    return name, vec, miss, concrete, len(targets)
+                votes[t] = votes.get(t, 0) + 1
+    return name, found, votes, [tuple(t) for t in targets]
 
 
 def main():
@@ -323,13 +462,40 @@ def main():
     if "--budget" in sys.argv:
         budget = int(sys.argv[sys.argv.index("--budget") + 1])
     names = [n for n in FUNCS if re.search(pat, n)]
-    jobs = [(repo, n, 12345 + i, budget) for i, n in enumerate(names)]
+    found = {n: {} for n in names}
+    votes = {n: {} for n in names}
+    with multiprocessing.Pool(16) as pool:
+        for name, f in pool.imap_unordered(explore, [(repo, n, 12345 + i) for i, n in enumerate(names)]):
+            found[name].update(f)
+            print(name, "exploration reached", len(f), flush=True)
+        for name, f in pool.imap_unordered(digits_phase, [(repo, n, 777 + i) for i, n in enumerate(names)]):
+            before = len(found[name])
+            for k, a in f.items():
+                found[name].setdefault(k, a)
+            print(name, "special digits: +%d" % (len(found[name]) - before), flush=True)
+        jobs = []
+        for n in names:
+            tg = [t for t in all_sites(Prog(repo, n)) if t not in found[n]]
+            random.Random(1).shuffle(tg)
+            for i in range(0, len(tg), 8):
+                jobs.append((repo, n, 999 + i, tg[i:i + 8], budget))
+        print("solve jobs:", len(jobs), flush=True)
+        done = 0
+        for name, f, v, tg in pool.imap_unordered(solve_chunk, jobs):
+            for k, a in f.items():
+                found[name].setdefault(k, a)
+            for k, c in v.items():
+                votes[name][k] = votes[name].get(k, 0) + c
+            done += 1
+            if done % 10 == 0:
+                print("chunks done", done, "/", len(jobs), {n: len(found[n]) for n in names}, flush=True)
     allv, report = [], {}
-    with multiprocessing.Pool(min(len(jobs), 14)) as pool:
-        for name, vec, miss, concrete, total in pool.imap_unordered(work, jobs):
-            allv += vec
-            report[name] = {"event_classes": total, "reached": len(vec), "reached_by_exploration": concrete, "not_reached": miss}
-            print(name, "classes", total, "reached", len(vec), "(exploration %d)" % concrete, "not reached", len(miss), flush=True)
+    for n in names:
+        targets = all_sites(Prog(repo, n))
+        for k, a in sorted(found[n].items()):
+            allv.append({"fn": n, "site": k[0], "event": k[1], "args": [["%016x" % l for l in row] for row in a]})
+        report[n] = {"event_classes": len(targets), "reached": len(found[n]), "not_reached": [list(t) + [votes[n].get(t, 0)] for t in targets if t not in found[n]]}
+        print(n, "classes", len(targets), "reached", len(found[n]), flush=True)
     allv.sort(key=lambda v: (v["fn"], int(v["site"][1:]), v["event"]))
     json.dump({"vectors": allv, "report": report}, open(outp, "w"), indent=0)
 
